@@ -362,7 +362,6 @@ def sweeps(tier, rng):
                                     ("generalize+specialize", lambda p_: specializeProgram(generalizeProgram(p_)), False)):
                 if bad: break
                 body = [t for t in prog if not isinstance(t, bytes)]
-                if any(t in ("hstem", "vstem", "hstemhm", "vstemhm", "hintmask") for t in prog): continue   # rewrites below take hint-free programs
                 try:
                     out = fn(list(prog[:-1]))
                     got, w1 = draw_program(list(out) + ["endchar"])
